@@ -105,6 +105,43 @@ theorem voronoi_nearest_partial (g : Graph) (seeds : List Nat) (lab : List (Opti
             subst hs0
             exact ⟨s0, b, rfl, hpath, (hDS.1 b hb).2⟩
 
+/-! ## Queries describe the current graph (operation histories) -/
+
+/-- Walks, hence true distances, reachability and nearest seeds, depend only on the *set* of
+weighted edges of the graph: any re-ordering or re-sorting of the edge arrays (as
+`compact_neighb` or a structural operation performs) cannot change what a query must answer. -/
+theorem path_edges_congr (g1 g2 : Graph) (h : ∀ e, e ∈ g1.edges ↔ e ∈ g2.edges) (s v : Nat) (l : Rat) :
+    Path g1 s v l ↔ Path g2 s v l := by
+  constructor
+  · intro hp
+    induction hp with
+    | nil => exact Path.nil _
+    | snoc _ he ih => exact Path.snoc ih ((h _).mp he)
+  · intro hp
+    induction hp with
+    | nil => exact Path.nil _
+    | snoc _ he ih => exact Path.snoc ih ((h _).mpr he)
+
+/-- After any history of structural operations on one object, `dijkstra` answers for the graph the
+object holds *now* (`runHistory g ops`): its finite entries are minimum walk lengths of that graph
+and `inf` means unreachable in it — under the same certificate as `dijkstra_correct_partial`,
+which the correspondence run evaluates after every step of every generated history.  PARTIAL for
+the reason stated there. -/
+theorem history_dijkstra_partial (g : Graph) (ops : List Op) (seeds : List Nat)
+    (hc : certOK (runHistory g ops) seeds (dijkstra (runHistory g ops) seeds) = true) (v : Nat) :
+    (∀ b, (dijkstra (runHistory g ops) seeds).getD v none = some b →
+        (∃ s ∈ seeds, Path (runHistory g ops) s v b) ∧
+        ∀ s ∈ seeds, ∀ l, Path (runHistory g ops) s v l → b ≤ l) ∧
+    ((dijkstra (runHistory g ops) seeds).getD v none = none →
+        ∀ s ∈ seeds, ∀ l, ¬ Path (runHistory g ops) s v l) :=
+  dijkstra_correct_partial (runHistory g ops) seeds hc v
+
+/-- a history step by step: the state after `ops ++ [op]` is the operation applied to the state
+after `ops` (no other memory) -/
+theorem runHistory_snoc (g : Graph) (ops : List Op) (op : Op) :
+    runHistory g (ops ++ [op]) = applyOp (runHistory g ops) op := by
+  simp [runHistory, List.foldl_append]
+
 /-! ## Connected components -/
 
 /-- Component clause, direction "reachable ⇒ same label": when the closure certificate holds
@@ -351,5 +388,11 @@ example : (normalize ⟨3, [(1, 0, 1), (0, 1, 1), (0, 2, 3)]⟩ 0).edges = [(0, 
   decide +kernel
 example : (subgraph ⟨4, [(0, 1, 1), (1, 3, 2), (3, 3, 3), (2, 3, 4)]⟩ [false, true, false, true]).map (·.edges)
     = some [(0, 1, 2), (1, 1, 3)] := by decide +kernel
+
+/-- query → normalize → query: the second answer is about the normalised graph -/
+example : dijkstra (runHistory ⟨3, [(0, 1, 1), (0, 2, 3), (1, 2, 1)]⟩ [.normalize 0]) [0]
+    = [some 0, some (1/4), some (3/4)] := by decide +kernel
+example : certOK (runHistory ⟨3, [(0, 1, 1), (0, 2, 3), (1, 2, 1)]⟩ [.normalize 0]) [0]
+    (dijkstra (runHistory ⟨3, [(0, 1, 1), (0, 2, 3), (1, 2, 1)]⟩ [.normalize 0]) [0]) = true := by decide +kernel
 
 end NipyVerif.C11
